@@ -65,7 +65,10 @@ def enum_cases(maxk):
 
 
 def gen_cases(tier, seed):
-    yield from enum_cases(3 if tier == 'quick' else 4)
+    for case in enum_cases(3 if tier == 'quick' else 4):
+        yield case
+        # the same, but the event is deferred and released by enabling
+        yield dict(case, flush=True)
     n = 300 if tier == 'quick' else 16 * 1500
     for i in range(n):
         rng = random.Random(f'C10/{seed}/{tier}/{i}')
@@ -77,7 +80,8 @@ def gen_cases(tier, seed):
             drops.append({'when': rng.choice(['between'] + list(range(k))),
                           'victim': rng.randrange(k),
                           'how': rng.choice(HOWS[owner])})
-        yield {'k': k, 'hashes': hashes, 'owner': owner, 'drops': drops}
+        yield {'k': k, 'hashes': hashes, 'owner': owner, 'drops': drops,
+               'flush': rng.random() < 0.4}
 
 
 def run_case(case):
@@ -181,11 +185,23 @@ def run_case(case):
         # ---- the dispatch during which references are dropped
         state['token'] = 1
         state['count'] = 0
-        d.dispatch('ev', 1)
+        if case.get('flush'):
+            res.tags['delivery_path'].add('deferred-release')
+            d.dispatch_enabled = False
+            d.dispatch('ev', 1)
+            if log:
+                res.div(1, 'callback-while-disabled', 'callback while '
+                        'dispatching was disabled', [], list(map(repr, log)))
+            d.dispatch_enabled = True
+        else:
+            res.tags['delivery_path'].add('direct')
+            d.dispatch('ev', 1)
         res.stats['dispatches_checked'] += 1
         check_dispatch(res, log, 1, k, pre_dropped, dropped)
         order = tuple(e[1] for e in log if e[2] == 1)
         res.tags[f'delivery_order_k{k}'].add(order)
+        if len(order) == k:
+            res.tags[f'full_delivery_order_k{k}'].add(order)
         for v, had, in_dispatch in drop_events:
             if in_dispatch:
                 res.stats['drops_inside_dispatch'] += 1
